@@ -28,6 +28,8 @@ type campOpts struct {
 	nontrivial func(d *cons.DAG, traces []*cons.Trace) bool
 	// DCrit / rejection are expected when cheaters hold >= 1/3: only count them below one third
 	critOnlyBelowThird bool
+	// optional: replaces the generated configuration of DAG i (nil result = keep it)
+	tweak func(r *rand.Rand, i int, cfg *cons.GenCfg) *cons.GenCfg
 }
 
 func cheatersBelowThird(p *cons.EpochPlan) bool {
@@ -117,6 +119,11 @@ func runCampaign(c *ev.Ctx, o *campOpts) {
 	c.Parallel(o.nDAGs, 0, func(i int) {
 		r := c.Rand("dag", i)
 		cfg := genCfgFor(r, i, o)
+		if o.tweak != nil {
+			if t := o.tweak(r, i, cfg); t != nil {
+				cfg = t
+			}
+		}
 		d, g, err := cons.Generate(r, cfg)
 		below := d != nil && dagAllBelowThird(d)
 		if err != nil {
